@@ -181,7 +181,7 @@ def run_property(prop, tier, seed, only=None, workers=None, write_evidence=True)
         elif not r["exhausted"]:
             worse(2, "job %s not exhausted" % r["name"])
         else:
-            if r["closure"] not in ("covered",) and not str(r["closure"]).startswith("skipped"):
+            if j.closure and r["closure"] not in ("covered",) and not str(r["closure"]).startswith("skipped"):
                 worse(2, "job %s closure query: %s" % (r["name"], r["closure"]))
             if r["paths"] < j.min_paths:
                 worse(2, "job %s vacuity floor: %d paths < %d" % (r["name"], r["paths"], j.min_paths))
